@@ -50,6 +50,26 @@ fn p_carc_view() {
     kani::cover!(some, "CArcSome");
     kani::cover!(!some, "CArc");
 }
+static H1: u64 = 1;
+static H2: u64 = 2;
+static mut FOREIGN_DROPS: [u32; 2] = [0, 0];
+unsafe extern "C" fn foreign_clone(p: Option<&'static u64>) -> Option<&'static u64> { assert!(core::ptr::eq(p.unwrap(), &H1)); Some(&H2) }
+unsafe extern "C" fn foreign_drop(p: Option<&u64>) { if core::ptr::eq(p.unwrap(), &H1) { FOREIGN_DROPS[0] += 1 } else { FOREIGN_DROPS[1] += 1 } }
+#[kani::proof]
+fn p_carc_foreign_built() {
+    // an arc BUILT BY A C CALLER from the published fields: Rust's clone/drop go through those functions
+    // and a clone carries the handle the foreign clone function returned
+    let view = ArcView::<u64> { instance: &H1, clone: Some(foreign_clone), drop: Some(foreign_drop) };
+    let a: CArcSome<u64> = unsafe { core::mem::transmute_copy(&view) };
+    let b = a.clone();
+    let vb: ArcView<u64> = unsafe { core::mem::transmute_copy(&b) };
+    assert!(vb.instance == &H2 as *const u64 && *b == 2, "C16 the clone carries the instance returned by the published clone function");
+    drop(b);
+    unsafe { assert!(FOREIGN_DROPS == [0, 1], "C16 dropping the clone calls the published drop function with the clone's instance") };
+    drop(a);
+    unsafe { assert!(FOREIGN_DROPS == [1, 1], "C16 dropping the original calls the published drop function with its own instance") };
+    kani::cover!(true, "end");
+}
 //@ prefix=canary kind=canary clause=vacuity canary
 #[kani::proof]
 fn canary_carc() {
